@@ -670,3 +670,356 @@ theorem nodup (h : BotUpd g g' N st en) (hnd : ∀ k, ((before g k).map (·.id))
     · rw [h.before_gt (by omega)]; exact hnd k
 
 end BotUpd
+
+/-! ## Part 5: the table built by `applyFormatting` -/
+
+theorem sliceIdx_le (n : Nat) (v : Option Int) (d : Nat) (hd : d ≤ n) : sliceIdx n v d ≤ n := by
+  unfold sliceIdx
+  cases v with
+  | none => exact hd
+  | some v =>
+    simp only
+    split
+    · omega
+    · exact Nat.min_le_right _ _
+
+namespace Fmts
+
+/-- `if k not in d: d[k] = Point()` followed by an update of `d[k]` -/
+def em (f : Fmts) (k : Nat) (h : Point → Point) : Fmts := (f.ensure k).modify k h
+
+theorem sorted_em {f : Fmts} (hs : SortedKeys f) (k : Nat) (h : Point → Point) : SortedKeys (f.em k h) :=
+  sorted_modify (sorted_ensure hs k) k h
+
+theorem toFun_em {f : Fmts} (hs : SortedKeys f) (k : Nat) (h : Point → Point) (j : Nat) :
+    toFun (f.em k h) j = if j = k then h (toFun f k) else toFun f j := by
+  unfold em
+  rw [toFun_modify _ _ _ (contains_ensure hs k), toFun_ensure hs, toFun_ensure hs]
+
+theorem contains_em {f : Fmts} (hs : SortedKeys f) (k : Nat) (h : Point → Point) (j : Nat) :
+    (f.em k h).contains j = (decide (j = k) || f.contains j) := by
+  unfold em
+  rw [contains_modify]
+  unfold Fmts.contains
+  rw [get?_ensure hs]
+  by_cases hj : j = k <;> simp [hj]
+
+theorem if_isEmpty_modify (f : Fmts) (st n : Nat) (P : List Setting) :
+    (if P.isEmpty then f else f.modify st (fun p =>
+        { rem := p.rem ++ P, add := p.add.take n ++ P ++ p.add.drop n })) =
+      f.modify st (fun p => { rem := p.rem ++ P, add := p.add.take n ++ P ++ p.add.drop n }) := by
+  split
+  · rename_i hP
+    rw [List.isEmpty_iff] at hP
+    subst hP
+    rw [modify_id]
+    intro p
+    simp
+  · rfl
+
+end Fmts
+
+theorem applyFormatting_top (x : AStr) (N : List Setting) (start end_ : Option Int)
+    (h1 : ¬ (sliceIdx x.len start 0 ≥ x.len ∨ sliceIdx x.len end_ x.len ≤ sliceIdx x.len start 0))
+    (hN : N ≠ []) :
+    x.applyFormatting N start end_ true =
+      ⟨x.s, Fmts.em (Fmts.em x.fmts (sliceIdx x.len start 0) (fun p => { p with add := p.add ++ N }))
+            (sliceIdx x.len end_ x.len) (fun p => { p with rem := p.rem ++ N })⟩ := by
+  have hN' : N.isEmpty = false := by cases N <;> simp_all
+  unfold AStr.applyFormatting Fmts.em
+  simp only [h1, if_false, hN', if_true, Bool.false_eq_true]
+
+theorem applyFormatting_bot (x : AStr) (N : List Setting) (start end_ : Option Int)
+    (h1 : ¬ (sliceIdx x.len start 0 ≥ x.len ∨ sliceIdx x.len end_ x.len ≤ sliceIdx x.len start 0))
+    (hN : N ≠ []) :
+    x.applyFormatting N start end_ false =
+      let st := sliceIdx x.len start 0
+      let f2 := x.fmts.em st (fun p => { p with add := N ++ p.add })
+      let P := (active f2 st).filter (fun s => !hasId (f2.getD st).add s.id)
+      ⟨x.s, Fmts.em (f2.modify st (fun p =>
+            { rem := p.rem ++ P, add := p.add.take N.length ++ P ++ p.add.drop N.length }))
+            (sliceIdx x.len end_ x.len) (fun p => { p with rem := N ++ p.rem })⟩ := by
+  have hN' : N.isEmpty = false := by cases N <;> simp_all
+  unfold AStr.applyFormatting Fmts.em
+  simp only [h1, if_false, hN', Bool.false_eq_true]
+  rw [Fmts.if_isEmpty_modify]
+
+theorem FreshN.freshG {x : AStr} {N : List Setting} (hw : WF x) (h : FreshN x N) :
+    FreshG (Fmts.toFun x.fmts) N := by
+  intro k s hs t ht
+  exact h.1 t ht s ((Fmts.mem_settings_iff hw.sorted s).mpr ⟨k, hs⟩)
+
+theorem hasId_self {l : List Setting} {s : Setting} (h : s ∈ l) : hasId l s.id = true := by
+  unfold hasId
+  exact List.any_eq_true.mpr ⟨s, h, by simp⟩
+
+/-- `apply_formatting(…, topmost=True)` is a `TopUpd` of the table -/
+theorem apply_topUpd {x : AStr} {N : List Setting} {start end_ : Option Int} {st en : Nat}
+    (hw : WF x) (hf : FreshN x N) (hst : st = sliceIdx x.len start 0)
+    (hen : en = sliceIdx x.len end_ x.len) (h1 : st < x.len) (h2 : st < en) (hN : N ≠ []) :
+    (x.applyFormatting N start end_ true).s = x.s ∧
+    SortedKeys (x.applyFormatting N start end_ true).fmts ∧
+    TopUpd (Fmts.toFun x.fmts) (Fmts.toFun (x.applyFormatting N start end_ true).fmts) N st en ∧
+    (∀ j, (x.applyFormatting N start end_ true).fmts.contains j = true →
+        x.fmts.contains j = true ∨ j = st ∨ j = en) := by
+  subst hst hen
+  rw [applyFormatting_top x N start end_ (by omega) hN]
+  have hs := hw.sorted
+  have hs1 := Fmts.sorted_em hs (sliceIdx x.len start 0) (fun p => { p with add := p.add ++ N })
+  refine ⟨rfl, Fmts.sorted_em hs1 _ _, ?_, ?_⟩
+  · refine ⟨h2, ?_, ?_, ?_, hf.freshG hw, hf.2⟩
+    · intro j j1 j2
+      simp only [Fmts.toFun_em hs1, Fmts.toFun_em hs, j1, j2, if_false]
+    · have : ¬ sliceIdx x.len start 0 = sliceIdx x.len end_ x.len := by omega
+      simp only [Fmts.toFun_em hs1, Fmts.toFun_em hs, this, if_false, if_true]
+    · have : ¬ sliceIdx x.len end_ x.len = sliceIdx x.len start 0 := by omega
+      simp only [Fmts.toFun_em hs1, Fmts.toFun_em hs, this, if_false, if_true]
+  · intro j hj
+    simp only [Fmts.contains_em hs1, Fmts.contains_em hs, Bool.or_eq_true, decide_eq_true_eq] at hj
+    rcases hj with h | h | h
+    · exact Or.inr (Or.inr h)
+    · exact Or.inr (Or.inl h)
+    · exact Or.inl h
+
+/-- what `apply_formatting(…, topmost=False)` stops and starts again at `st` -/
+theorem bot_P {x : AStr} {N : List Setting} (st : Nat) (hw : WF x) (hf : FreshN x N) :
+    (active (x.fmts.em st (fun p => { p with add := N ++ p.add })) st).filter
+        (fun s => !hasId ((x.fmts.em st (fun p => { p with add := N ++ p.add })).getD st).add s.id) =
+      eraseAll (before (Fmts.toFun x.fmts) st) (Fmts.toFun x.fmts st).rem := by
+  have hs := hw.sorted
+  have hs1 := Fmts.sorted_em hs st (fun p => { p with add := N ++ p.add })
+  have hg : Fmts.toFun (x.fmts.em st (fun p => { p with add := N ++ p.add })) st =
+      { rem := (Fmts.toFun x.fmts st).rem, add := N ++ (Fmts.toFun x.fmts st).add } := by
+    rw [Fmts.toFun_em hs]; simp
+  rw [show (x.fmts.em st (fun p => { p with add := N ++ p.add })).getD st =
+    Fmts.toFun (x.fmts.em st (fun p => { p with add := N ++ p.add })) st from rfl]
+  have hb : before (Fmts.toFun (x.fmts.em st (fun p => { p with add := N ++ p.add }))) st =
+      before (Fmts.toFun x.fmts) st :=
+    before_congr st (fun j hj => by
+      have : ¬ j = st := by omega
+      simp only [Fmts.toFun_em hs, this, if_false])
+  have hnd := hw.nodup st
+  rw [active_eq_before hs, before_succ, stepPoint_eq, List.map_append, List.nodup_append] at hnd
+  rw [active_eq_before hs1, before_succ, hb, hg]
+  show List.filter _ (stepPoint _ _) = _
+  rw [stepPoint_eq]
+  simp only [List.filter_append]
+  have e1 : List.filter (fun s => !hasId (N ++ (Fmts.toFun x.fmts st).add) s.id)
+      (N ++ (Fmts.toFun x.fmts st).add) = [] := by
+    rw [List.filter_eq_nil_iff]
+    intro s hs'
+    simp [hasId_self hs']
+  have e2 : List.filter (fun s => !hasId (N ++ (Fmts.toFun x.fmts st).add) s.id)
+      (eraseAll (before (Fmts.toFun x.fmts) st) (Fmts.toFun x.fmts st).rem) =
+      eraseAll (before (Fmts.toFun x.fmts) st) (Fmts.toFun x.fmts st).rem := by
+    rw [List.filter_eq_self]
+    intro s hs'
+    have a1 : hasId N s.id = false :=
+      hasId_false_of_notIn ((hf.freshG hw).before ((eraseAll_sublist _ _).subset hs'))
+    have a2 : hasId (Fmts.toFun x.fmts st).add s.id = false := by
+      apply hasId_false_of_notIn
+      intro t ht hts
+      exact hnd.2.2 s.id (List.mem_map.mpr ⟨s, hs', rfl⟩) t.id (List.mem_map.mpr ⟨t, ht, rfl⟩) hts.symm
+    simp [hasId_append, a1, a2]
+  rw [e2]
+  simpa using e1
+
+/-- `apply_formatting(…, topmost=False)` is a `BotUpd` of the table -/
+theorem apply_botUpd {x : AStr} {N : List Setting} {start end_ : Option Int} {st en : Nat}
+    (hw : WF x) (hf : FreshN x N) (hst : st = sliceIdx x.len start 0)
+    (hen : en = sliceIdx x.len end_ x.len) (h1 : st < x.len) (h2 : st < en) (hN : N ≠ []) :
+    (x.applyFormatting N start end_ false).s = x.s ∧
+    SortedKeys (x.applyFormatting N start end_ false).fmts ∧
+    BotUpd (Fmts.toFun x.fmts) (Fmts.toFun (x.applyFormatting N start end_ false).fmts) N st en ∧
+    (∀ j, (x.applyFormatting N start end_ false).fmts.contains j = true →
+        x.fmts.contains j = true ∨ j = st ∨ j = en) := by
+  subst hst hen
+  rw [applyFormatting_bot x N start end_ (by omega) hN]
+  simp only [bot_P _ hw hf]
+  have hs := hw.sorted
+  have hs1 := Fmts.sorted_em hs (sliceIdx x.len start 0) (fun p => { p with add := N ++ p.add })
+  have hc1 : (x.fmts.em (sliceIdx x.len start 0) (fun p => { p with add := N ++ p.add })).contains
+      (sliceIdx x.len start 0) = true := by
+    rw [Fmts.contains_em hs]; simp
+  refine ⟨trivial, Fmts.sorted_em (Fmts.sorted_modify hs1 _ _) _ _, ?_, ?_⟩
+  · refine ⟨h2, ?_, ?_, ?_, hf.freshG hw, hf.2⟩
+    · intro j j1 j2
+      simp only [Fmts.toFun_em (Fmts.sorted_modify hs1 _ _), Fmts.toFun_modify _ _ _ hc1,
+        Fmts.toFun_em hs, j1, j2, if_false]
+    · have : ¬ sliceIdx x.len start 0 = sliceIdx x.len end_ x.len := by omega
+      simp only [Fmts.toFun_em (Fmts.sorted_modify hs1 _ _), Fmts.toFun_modify _ _ _ hc1,
+        Fmts.toFun_em hs, this, if_false, if_true]
+      simp
+    · have : ¬ sliceIdx x.len end_ x.len = sliceIdx x.len start 0 := by omega
+      simp only [Fmts.toFun_em (Fmts.sorted_modify hs1 _ _), Fmts.toFun_modify _ _ _ hc1,
+        Fmts.toFun_em hs, this, if_false, if_true]
+  · intro j hj
+    simp only [Fmts.contains_em (Fmts.sorted_modify hs1 _ _), Fmts.contains_modify,
+      Fmts.contains_em hs, Bool.or_eq_true, decide_eq_true_eq] at hj
+    rcases hj with h | h | h
+    · exact Or.inr (Or.inr h)
+    · exact Or.inr (Or.inl h)
+    · exact Or.inl h
+
+/-! ## Part 6: the invariant `WF` is kept -/
+
+theorem TopUpd.mem_new {g g' : Nat → Point} {N : List Setting} {st en : Nat} (h : TopUpd g g' N st en)
+    {k : Nat} {s : Setting} (hs : s ∈ (g' k).add ∨ s ∈ (g' k).rem) :
+    s ∈ N ∨ ∃ j, s ∈ (g j).add ∨ s ∈ (g j).rem := by
+  by_cases c1 : k = st
+  · subst c1
+    rw [h.atSt] at hs
+    simp only [List.mem_append] at hs
+    rcases hs with (hs | hs) | hs
+    · exact Or.inr ⟨k, Or.inl hs⟩
+    · exact Or.inl hs
+    · exact Or.inr ⟨k, Or.inr hs⟩
+  · by_cases c2 : k = en
+    · subst c2
+      rw [h.atEn] at hs
+      simp only [List.mem_append] at hs
+      rcases hs with hs | hs | hs
+      · exact Or.inr ⟨k, Or.inl hs⟩
+      · exact Or.inr ⟨k, Or.inr hs⟩
+      · exact Or.inl hs
+    · rw [h.oth k c1 c2] at hs
+      exact Or.inr ⟨k, hs⟩
+
+theorem BotUpd.mem_new {g g' : Nat → Point} {N : List Setting} {st en : Nat} (h : BotUpd g g' N st en)
+    {k : Nat} {s : Setting} (hs : s ∈ (g' k).add ∨ s ∈ (g' k).rem) :
+    s ∈ N ∨ ∃ j, s ∈ (g j).add ∨ s ∈ (g j).rem := by
+  have hA : s ∈ eraseAll (before g st) (g st).rem → ∃ j, s ∈ (g j).add ∨ s ∈ (g j).rem := by
+    intro hs
+    obtain ⟨j, hj⟩ := mem_before ((eraseAll_sublist _ _).subset hs)
+    exact ⟨j, Or.inl hj⟩
+  by_cases c1 : k = st
+  · subst c1
+    rw [h.atSt] at hs
+    simp only [List.mem_append] at hs
+    rcases hs with ((hs | hs) | hs) | hs | hs
+    · exact Or.inl hs
+    · exact Or.inr (hA hs)
+    · exact Or.inr ⟨k, Or.inl hs⟩
+    · exact Or.inr ⟨k, Or.inr hs⟩
+    · exact Or.inr (hA hs)
+  · by_cases c2 : k = en
+    · subst c2
+      rw [h.atEn] at hs
+      simp only [List.mem_append] at hs
+      rcases hs with hs | hs | hs
+      · exact Or.inr ⟨k, Or.inl hs⟩
+      · exact Or.inl hs
+      · exact Or.inr ⟨k, Or.inr hs⟩
+    · rw [h.oth k c1 c2] at hs
+      exact Or.inr ⟨k, hs⟩
+
+theorem eq_of_id_eq {N : List Setting} (hnd : (N.map (·.id)).Nodup) {s t : Setting}
+    (hs : s ∈ N) (ht : t ∈ N) (h : s.id = t.id) : s = t := by
+  induction N with
+  | nil => cases hs
+  | cons a N ih =>
+    rw [List.map_cons, List.nodup_cons] at hnd
+    rcases List.mem_cons.mp hs with rfl | hs' <;> rcases List.mem_cons.mp ht with rfl | ht'
+    · rfl
+    · exact absurd (List.mem_map.mpr ⟨t, ht', h.symm⟩) hnd.1
+    · exact absurd (List.mem_map.mpr ⟨s, hs', h⟩) hnd.1
+    · exact ih hnd.2 hs' ht'
+
+/-- assembling `WF` of the result from the function-level facts -/
+theorem wf_of_upd {x x' : AStr} {N : List Setting} {st en : Nat} (hw : WF x) (hf : FreshN x N)
+    (hs : x'.s = x.s) (hsorted : SortedKeys x'.fmts)
+    (hcont : ∀ j, x'.fmts.contains j = true → x.fmts.contains j = true ∨ j = st ∨ j = en)
+    (hst : st < x.len) (hen : en ≤ x.len)
+    (hok : ∀ k, stepOk (before (Fmts.toFun x'.fmts) k) (Fmts.toFun x'.fmts k).rem = true)
+    (hnd : ∀ k, ((before (Fmts.toFun x'.fmts) k).map (·.id)).Nodup)
+    (hgt : ∀ k, en < k → before (Fmts.toFun x'.fmts) k = before (Fmts.toFun x.fmts) k)
+    (hoth : ∀ j, j ≠ st → j ≠ en → Fmts.toFun x'.fmts j = Fmts.toFun x.fmts j)
+    (hadd : (Fmts.toFun x'.fmts en).add = (Fmts.toFun x.fmts en).add)
+    (hmem : ∀ k s, (s ∈ (Fmts.toFun x'.fmts k).add ∨ s ∈ (Fmts.toFun x'.fmts k).rem) →
+      s ∈ N ∨ ∃ j, s ∈ (Fmts.toFun x.fmts j).add ∨ s ∈ (Fmts.toFun x.fmts j).rem) : WF x' := by
+  have hlen : x'.len = x.len := by unfold AStr.len; rw [hs]
+  refine ⟨hsorted, ?_, ?_, ?_, ?_, ?_, ?_⟩
+  · rw [Fmts.bound_iff hsorted, hlen]
+    intro j hj
+    rcases hcont j hj with h | h | h
+    · exact (Fmts.bound_iff hw.sorted _).mp hw.bound j h
+    · omega
+    · omega
+  · rw [Fmts.noAddEnd_iff hsorted, hlen]
+    have hold := (Fmts.noAddEnd_iff hw.sorted _).mp hw.noAddEnd
+    by_cases c : x.len = en
+    · rw [c, hadd, ← c]; exact hold
+    · rw [hoth _ (by omega) c]; exact hold
+  · exact (replayOk_iff hsorted).mpr hok
+  · intro i
+    rw [active_eq_before hsorted]; exact hnd _
+  · rw [hlen, active_eq_before hsorted, hgt _ (by omega), ← active_eq_before hw.sorted]
+    exact hw.closed
+  · have hsub : ∀ s ∈ x'.fmts.settings, s ∈ N ∨ s ∈ x.fmts.settings := by
+      intro s hs
+      obtain ⟨k, hk⟩ := (Fmts.mem_settings_iff hsorted s).mp hs
+      rcases hmem k s hk with h | h
+      · exact Or.inl h
+      · exact Or.inr ((Fmts.mem_settings_iff hw.sorted s).mpr h)
+    intro s hs t ht hid
+    rcases hsub s hs with h1 | h1 <;> rcases hsub t ht with h2 | h2
+    · rw [eq_of_id_eq hf.2 h1 h2 hid]
+    · exact absurd hid (hf.1 s h1 t h2)
+    · exact absurd hid.symm (hf.1 t h2 s h1)
+    · exact hw.coherent s h1 t h2 hid
+
+theorem TopUpd.add_en {g g' : Nat → Point} {N : List Setting} {st en : Nat} (h : TopUpd g g' N st en) :
+    (g' en).add = (g en).add := by rw [h.atEn]
+
+theorem BotUpd.add_en {g g' : Nat → Point} {N : List Setting} {st en : Nat} (h : BotUpd g g' N st en) :
+    (g' en).add = (g en).add := by rw [h.atEn]
+
+theorem WF.before_ok {x : AStr} (hw : WF x) (k : Nat) :
+    stepOk (before (Fmts.toFun x.fmts) k) (Fmts.toFun x.fmts k).rem = true :=
+  (replayOk_iff hw.sorted).mp hw.ok k
+
+theorem WF.before_nodup {x : AStr} (hw : WF x) (k : Nat) :
+    ((before (Fmts.toFun x.fmts) k).map (·.id)).Nodup := by
+  cases k with
+  | zero => simp [before_zero]
+  | succ k => rw [← active_eq_before hw.sorted]; exact hw.nodup k
+
+/-! ## Part 7: the fresh objects made by `apply_formatting` -/
+
+theorem freshSettings_ids_aux (nid : Nat) (ts : List Str) (k : Nat) :
+    ((ts.zipIdx k).map (fun (ti : Str × Nat) => (⟨nid + ti.2, ti.1⟩ : Setting))).map (·.id) =
+      List.range' (nid + k) ts.length := by
+  induction ts generalizing k with
+  | nil => rfl
+  | cons t ts ih =>
+    simp only [List.zipIdx_cons, List.map_cons, List.length_cons, List.range'_succ]
+    rw [ih (k + 1)]
+    rfl
+
+theorem freshSettings_ids (nid : Nat) (ts : List Str) :
+    (freshSettings nid ts).map (·.id) = List.range' nid ts.length := by
+  have := freshSettings_ids_aux nid ts 0
+  simpa [freshSettings] using this
+
+/-! ## Part 8: checking `WF` on a concrete value -/
+
+theorem activeFrom_ge_bound {f : Fmts} {m : Nat} (hb : ∀ kp ∈ f, kp.1 ≤ m) {i : Nat} (hi : m ≤ i)
+    (c : List Setting) : activeFrom c f i = activeFrom c f m := by
+  induction f generalizing c with
+  | nil => rfl
+  | cons kp rest ih =>
+    obtain ⟨k, p⟩ := kp
+    have hk : k ≤ m := hb (k, p) (by simp)
+    have h1 : k ≤ i := by omega
+    simp only [activeFrom, hk, h1, if_true]
+    exact ih (fun x hx => hb x (by simp [hx])) _
+
+/-- `WF.nodup` (a statement about every index) follows from the finitely many indices up to the
+    last key -/
+theorem nodup_all_of_le {f : Fmts} {m : Nat} (hb : ∀ kp ∈ f, kp.1 ≤ m)
+    (h : ∀ i, i ≤ m → ((active f i).map (·.id)).Nodup) (i : Nat) : ((active f i).map (·.id)).Nodup := by
+  by_cases hi : i ≤ m
+  · exact h i hi
+  · unfold active
+    rw [activeFrom_ge_bound hb (by omega : m ≤ i)]
+    exact h m (Nat.le_refl _)
